@@ -27,7 +27,7 @@ for pid, name, patch, summ in jobs:
     verdict = {0: "MISSED (exit 0)", 1: "detected", 2: "INCONCLUSIVE"}.get(r.returncode, "rc=%d" % r.returncode)
     rows.append((pid, name, verdict, len(viol), (what[0][6:200] if what else ""), (summ or "")[:160], time.time() - t0))
     print(pid, name, verdict, "%.0fs" % (time.time() - t0), flush=True)
-st = subprocess.run(["git", "-C", "/repo", "status", "--porcelain", "--untracked-files=no"], stdout=subprocess.PIPE, text=True).stdout
+st = subprocess.run(["git", "-C", os.environ.get("SEEDED_REPO", "/repo"), "status", "--porcelain", "--untracked-files=no"], stdout=subprocess.PIPE, text=True).stdout
 assert st.strip() == "", "/repo not clean after run: " + st
 with open("selftest/RESULTS.md", "w") as fh:
     fh.write("# Seeded changes vs checks (tier=%s)\n\nEach row: the change was applied to /repo (`git apply`), the owning property's check was run, /repo was restored.\n\n" % tier)
